@@ -18,7 +18,7 @@ THEOREMS = {
     "C01": ["ShipVerif.Hub.C10_trust_sources", "ShipVerif.Hub.C10_unregister_effect", "ShipVerif.Hub.C10_cancel_effect"],
 }
 IMPORTS = ["ShipVerif.Props.HubProps", "ShipVerif.Props.C15"]
-ENDED = {38, 14, 15, 16, 17, 39}
+ENDED = {14, 15, 16, 17, 39}   # aborted or failed handshakes: the connection closes itself
 
 
 def norm(hx):
